@@ -14,8 +14,8 @@ class C12(PropCheck):
     id = "C12"
     props_file = "Props/C12.v"
     shard = 60
-    quick_cases = 1500
-    thorough_cases = 20000
+    quick_cases = 3000
+    thorough_cases = 30000
     assumptions = [
         "distances are IEEE-754 doubles computed as sqrt(sum of squared differences) in index order "
         "(scipy pdist/cdist, np.linalg.norm); checked bit for bit on every case by the correspondence",
